@@ -55,6 +55,8 @@ var requests = []request{
 	{"GET", "/u/escape/1"}, // handler writes a status and panics; nobody below ServeHTTP recovers (net/http would)
 	{"GET", "/u/9/"},       // trailing slash: the second parameter is the empty string
 	{"GET", "/w/"},         // trailing slash on the * route: empty rest
+	{"GET", "/u/fwd/1"},    // the handler forwards another request into the same Mux with its own writer (s.W), then looks again
+	{"GET", "/u/sub/1"},    // the handler sets a status, serves an independent sub-request (fresh writer) through the same Mux, then looks again
 }
 
 // one observation made inside a handler
@@ -73,6 +75,17 @@ type world struct {
 	log    []seen // observations of the request being served
 	ids    []string
 	yield  bool
+	depth  int // > 0 while a request issued by a handler is being served (its observations are marked "inner:")
+}
+
+// me: the world the calling thread records into (S part), else w itself
+func (w *world) me() *world {
+	if t := vsched.Cur(); t != nil {
+		if mine := curWorld[t]; mine != nil {
+			return mine
+		}
+	}
+	return w
 }
 
 func (w *world) observe(where string, s *httpd.Store) {
@@ -98,7 +111,7 @@ func (w *world) observe(where string, s *httpd.Store) {
 		}
 		fmt.Fprintf(&b, " any=%q", s.RouteParamAny())
 	}()
-	o := seen{where: where, vec: b.String(), status: s.W.Status}
+	o := seen{where: strings.Repeat("inner:", w.depth) + where, vec: b.String(), status: s.W.Status}
 	o.id = strings.Clone(s.GetID())
 	if w.yield {
 		vsched.Yield("in-handler")
@@ -134,6 +147,21 @@ func (w *world) register(r route) {
 		w.observe("route "+r.method+" "+r.pattern, s)
 		if s.RouteParam("a") == "boom" {
 			panic("handler panic")
+		}
+		if a := s.RouteParam("a"); (a == "fwd" || a == "sub") && w.me().depth == 0 {
+			// a second request in flight on the same goroutine: the mounted-router / internal-redirect pattern
+			var rw http.ResponseWriter = s.W
+			if a == "sub" {
+				s.W.WriteHeader(201)
+				rw = &nullWriter{h: http.Header{}}
+			}
+			m := w.me()
+			m.depth++
+			func() {
+				defer func() { m.depth-- }()
+				w.mux.ServeHTTP(rw, &http.Request{Method: "GET", URL: &url.URL{Path: "/a/7"}, RequestURI: "/a/7", RemoteAddr: "10.0.0.2:99"})
+			}()
+			w.observe("route-after-inner-request", s)
 		}
 		if s.RouteParam("a") == "escape" {
 			s.W.WriteHeader(503)
@@ -227,8 +255,21 @@ func compare(q request, late bool, log []seen, escaped any) string {
 		if log[i].status != ref[i].status {
 			return fmt.Sprintf("C05: request %s %s sees W.Status=%d in %s, on a fresh Mux %d", q.method, q.path, log[i].status, log[i].where, ref[i].status)
 		}
-		if log[i].id != log[i].id2 || log[i].id != log[0].id {
-			return fmt.Sprintf("C05: request %s %s: GetID changed during the request (%q, %q, %q)", q.method, q.path, mask(log[0].id), mask(log[i].id), mask(log[i].id2))
+		first := log[0]
+		inner := strings.HasPrefix(log[i].where, "inner:")
+		if inner {
+			for _, o := range log {
+				if strings.HasPrefix(o.where, "inner:") {
+					first = o
+					break
+				}
+			}
+			if log[i].id == log[0].id {
+				return fmt.Sprintf("C05: request %s %s and the request its handler issued have the same id %q", q.method, q.path, mask(log[0].id))
+			}
+		}
+		if log[i].id != log[i].id2 || log[i].id != first.id {
+			return fmt.Sprintf("C05: request %s %s: GetID changed during the request (%q, %q, %q)", q.method, q.path, mask(first.id), mask(log[i].id), mask(log[i].id2))
 		}
 	}
 	return ""
@@ -324,11 +365,16 @@ func apply(s *sys, op int) string {
 	if m := compare(q, s.w.late, log, esc); m != "" {
 		return m
 	}
-	if len(log) > 0 {
-		id := log[0].id
-		if s.ids[id] {
-			return fmt.Sprintf("C05: request id %q handed out twice by one Mux", mask(id))
+	now := map[string]bool{}
+	for _, o := range log {
+		now[o.id] = true
+	}
+	for _, o := range log {
+		if s.ids[o.id] {
+			return fmt.Sprintf("C05: request id %q handed out twice by one Mux", mask(o.id))
 		}
+	}
+	for id := range now {
 		s.ids[id] = true
 	}
 	return ""
